@@ -182,6 +182,25 @@ Theorem C17_directed_percolate_network_shape :
   (forall u v, In (u, v) (pg_edges h) -> In u (gnodes g) /\ In v (gadj g u)).
 Proof. exact (fun g tau gamma w H => directed_percolate_network_shape g tau gamma w (wf_graphb_wfg g H)). Qed.
 
+(* get_infected_nodes, once the percolated network h is drawn ([pg_wf h]: what every
+   builder returns, C17_timing_builder_output_wf): the nodes reachable from the initial
+   infecteds in h minus the initially recovered nodes and their arcs *)
+Theorem C17_timing_builder_output_wf :
+  forall (dur : node -> xtime) (delay : node -> node -> xtime) g w, wf_graphb g = true ->
+  pg_wf (nm_perc_timing dur delay g w).
+Proof. exact (fun dur delay g w H => timing_pg_wf dur delay g w (wf_graphb_wfg g H)). Qed.
+
+Theorem C17_removed_nodes_adjacency :
+  forall h r0 u v,
+  In v (gadj (to_graph (remove_nodes h r0)) u) <-> In (u, v) (pg_edges h) /\ ~ In u r0 /\ ~ In v r0.
+Proof. exact removed_adj. Qed.
+
+Theorem C17_get_infected_nodes_spec :
+  forall h i0 r0, pg_wf h -> incl r0 (pg_nodes h) -> incl i0 (pg_nodes h) -> (forall x, In x i0 -> ~ In x r0) ->
+  exists r, infected_nodes_in h i0 r0 = Ok r /\ NoDup r /\
+            forall y, In y r <-> exists s, In s i0 /\ reach (gadj (to_graph (remove_nodes h r0))) s y.
+Proof. exact infected_nodes_in_spec. Qed.
+
 (* ---------------- non-vacuity ---------------- *)
 (* two equally large components {0,1} and {2,3}, 1->2, 3->4: the two choices give
    different answers, each as the formula says *)
@@ -210,7 +229,10 @@ Example C17_ex_builder :
   (* tau = 1, gamma = 0: durations are Inf, every arc is kept *)
   forallb (fun u => drawn 0 None && forallb (fun v => drawn 1 (Some (1 # 2))) (gadj ex_path u)) (gnodes ex_path) = true /\
   fst (exec (directed_percolate_network ex_path 1 0 false) [1 # 2; 1 # 2; 1 # 2; 1 # 2] []) =
-    Ok (nm_perc_timing (fun _ => None) (fun _ _ => Some (1 # 2)) ex_path false).
+    Ok (nm_perc_timing (fun _ => None) (fun _ _ => Some (1 # 2)) ex_path false) /\
+  (* everything transmits; node 1 initially recovered cuts the path *)
+  infected_nodes_in (nm_perc_timing (fun _ => None) (fun _ _ => Some (1 # 2)) ex_path true) [0%N] [1%N] = Ok [0%N] /\
+  infected_nodes_in (nm_perc_timing (fun _ => None) (fun _ _ => Some (1 # 2)) ex_path true) [0%N] [] = Ok [0; 1; 2]%N.
 Proof. vm_compute. repeat split. Qed.
 
 Print Assumptions C17_out_comp_spec.
@@ -234,6 +256,9 @@ Print Assumptions C17_estimate_nonMarkov_with_timing_formula.
 Print Assumptions C17_estimate_nonMarkov_formula.
 Print Assumptions C17_directed_percolate_network_is_timing_builder.
 Print Assumptions C17_directed_percolate_network_shape.
+Print Assumptions C17_timing_builder_output_wf.
+Print Assumptions C17_removed_nodes_adjacency.
+Print Assumptions C17_get_infected_nodes_spec.
 Print Assumptions C17_ex_wf.
 Print Assumptions C17_ex_two_answers.
 Print Assumptions C17_ex_mutual.
